@@ -57,17 +57,37 @@ pub fn value(t: &mut Tape, n: usize, radix: u32) -> (Limbs, &'static str) {
             // quotient limbs at the divisor, which powers of the radix alone do not produce.
             let d = rpow(radix, batch(radix) as u32);
             let m = t.usize_in(0, n - 2);
-            let top = match t.weighted(&[3, 2, 2]) {
+            // the encoder divides by d normalised (shifted left by its leading zeros): `d >> lshift`
+            // is the value at which its "top limb already below the divisor" shortcut flips
+            let lshift = 64u64.saturating_sub(d.bits());
+            let dn = (&d >> lshift).max(BigUint::from(2u32));
+            let top = match t.weighted(&[3, 2, 2, 3, 1, 1]) {
                 0 => d.clone(),
                 1 => &d - 1u32,
-                _ => &d + 1u32,
+                2 => &d + 1u32,
+                3 => dn.clone(),
+                4 => &dn - 1u32,
+                _ => &dn + 1u32,
             };
             let low = if m == 0 || t.chance(1, 3) { BigUint::zero() } else { big(&gen::limbs(t, m)) };
-            let q = (top << (64 * m as u64)) + low;
+            let q = ((top << (64 * m as u64)) + low).max(BigUint::one());
+            // after i division steps the running quotient is q: x = q*d^i + r (i up to the width;
+            // added after the round-2 seeded change C17-C, whose trigger is exactly such a quotient
+            // limb at division step 13..21)
+            let mut imax = 1u32;
+            while imax < 2 * n as u32 + 2 && (&q * rpow(radix, (imax + 1) * batch(radix) as u32)).bits() <= bits {
+                imax += 1;
+            }
+            let i = match t.weighted(&[2, 3, 2]) {
+                0 => 1,
+                1 => imax,
+                _ => t.u32_in(1, imax),
+            };
+            let d = rpow(radix, i * batch(radix) as u32);
             let r = match t.weighted(&[2, 1, 2]) {
                 0 => BigUint::zero(),
                 1 => &d - 1u32,
-                _ => BigUint::from(t.u64()) % &d,
+                _ => big(&gen::limbs(t, n)) % &d,
             };
             ((q * &d + r) % pow2(bits), "value: quotient limb at the per-limb divisor radix^batch")
         }
@@ -184,7 +204,7 @@ pub fn spoil(t: &mut Tape, s: &str, radix: u32) -> (String, &'static str) {
     let mut b: Vec<u8> = s.as_bytes().to_vec();
     let start = if b.first() == Some(&b'+') { 1 } else { 0 };
     let body_len = b.len() - start;
-    let kind = t.weighted(&[2, 2, 3, 3, 2, 2, 2, 1]);
+    let kind = t.weighted(&[2, 2, 3, 3, 2, 2, 2, 1, 3, 3]);
     // position inside the body: first / last / interior
     let pos = |t: &mut Tape, insert: bool| -> usize {
         let span = if insert { body_len + 1 } else { body_len.max(1) };
@@ -225,6 +245,33 @@ pub fn spoil(t: &mut Tape, s: &str, radix: u32) -> (String, &'static str) {
         4 => (vec![t.pick(&[b'/', b':', b'@', b'[', b'`', b'{'])], "spoil: ASCII neighbour of a digit range"),
         5 => (vec![t.pick(&[b' ', b'-', b'.', b',', b'\t', b'\n', 0u8, 0x7f, b'x', b'#'])], "spoil: punctuation / space / sign"),
         6 => (t.pick(&["é", "٣", "１", "\u{80}", "𝟙", "\u{feff}"]).as_bytes().to_vec(), "spoil: non-ASCII character"),
+        8 => {
+            // any 7-bit byte that is not an alphanumeric, '_' or '+' (uniform: control characters,
+            // space, punctuation) — added after the round-2 seeded change C17-D (a mask-based digit
+            // decoder accepting the control bytes 0x10..0x19) was missed
+            let mut c = t.below(128) as u8;
+            while c.is_ascii_alphanumeric() || c == b'_' || c == b'+' {
+                c = (c + 1) % 128;
+            }
+            (vec![c], "spoil: arbitrary non-alphanumeric 7-bit byte")
+        }
+        9 => {
+            // a valid digit character with exactly one bit flipped (0x01..0x40), if the result is
+            // not itself alphanumeric / '_' / '+': what a mask- or table-based decoder confuses
+            let d = if radix <= 10 || t.bool() { b'0' + t.below(radix.min(10) as u64) as u8 } else { LOWER[10 + t.index(radix as usize - 10)] };
+            let d = if d.is_ascii_lowercase() && t.bool() { d.to_ascii_uppercase() } else { d };
+            let mut c = d ^ (1u8 << t.below(7));
+            if c.is_ascii_alphanumeric() || c == b'_' || c == b'+' {
+                c = d ^ 0x20;
+                if c.is_ascii_alphanumeric() || c == b'_' || c == b'+' {
+                    c = d ^ 0x60;
+                }
+                if c.is_ascii_alphanumeric() || c == b'_' || c == b'+' {
+                    c = 0x11;
+                }
+            }
+            (vec![c & 0x7f], "spoil: digit character with one bit flipped")
+        }
         _ => {
             // a second or misplaced '+'
             let i = if (start == 1 && t.bool()) || b.is_empty() { 0 } else { 1 + t.index(b.len()) };
